@@ -68,7 +68,12 @@ func externalSpec(f *ssa.Function) ExtSpec {
 		return es
 	}
 	if f.Pkg != nil && purePkgs[f.Pkg.Pkg.Path()] && f.Signature.Recv() == nil {
-		return ExtSpec{Known: true, Pure: true}
+		// documented panics: negative counts, invalid bases
+		switch name {
+		case "strings.Repeat", "bytes.Repeat", "strconv.FormatInt", "strconv.FormatUint", "strconv.AppendInt":
+			return ExtSpec{Known: true, Pure: true}
+		}
+		return ExtSpec{Known: true, Pure: true, NoPanic: true}
 	}
 	if m := pureRecv.FindStringSubmatch(name); m != nil {
 		// Builder/Buffer writers modify their receiver (a local cell, handled by HavocArgs)
